@@ -9,6 +9,7 @@ import WowVerif.Model.Frame
 import WowVerif.Model.FrameExpect
 import WowVerif.Model.Geometry
 import WowVerif.Model.SemIO
+import WowVerif.Model.SemNorm
 import WowVerif.Model.SemSize
 import WowVerif.Model.SemLimits
 import WowVerif.Model.UpdateMask
@@ -536,6 +537,16 @@ def loadLine (st : DState) (line : String) : DState :=
 def semHandle (st : DState) (ws : List String) : Option String :=
   match ws with
   | ["wskeys"] => some s!"{st.wsprogs.size}"
+  | ["progeq", specKey, rustKey] =>
+    -- C01 / C03 / C04 (code side): is the program translated from the generated Rust reader the per-enumerator normal form of the
+    -- program translated from the wowm definition?  (Model/SemNorm.lean `readerMatches`, Thm/C01b.lean)
+    match st.corpus.get? specKey, st.corpus.get? rustKey with
+    | some (_, s), some (_, r) =>
+      if Sem.readerMatches s r then
+        some s!"same wf={if Sem.wfMs r then 1 else 0} prim={if (Sem.firstPrim r).isSome then 1 else 0}"
+      else some "differ"
+    | none, _ => some "nokey-spec"
+    | _, none => some "nokey-rust"
   | ["wsflat", name, key] =>
     -- C17: the verified static matcher (Thm/C17c.lean flat_sound): `flat` = the definition is inside the straight-line fragment,
     -- `match` = the dissector program walks every canonical encoding of it exactly (all values, by the theorem)
